@@ -784,4 +784,306 @@ Section IdentifyGen.
       split; assumption.
   Qed.
 
+  (** * Extras: stability of the answer in the fuel, and a completeness fact *)
+
+  Corollary conf_search_fuel_stable_gen fuel (g : digraph A) n1 n2 :
+    wf g -> acyclic g -> length (verts g) + 1 <= fuel ->
+    conf_search eqb fuel g n1 n2 = conf_search eqb (length (verts g) + 1) g n1 n2.
+  Proof.
+    intros Hwf Hac Hle.
+    destruct (conf_search eqb (length (verts g) + 1) g n1 n2) as [R|] eqn:E.
+    - exact (conf_search_mono_gen _ _ _ Hle E).
+    - exfalso. exact (conf_search_fuel_gen n1 n2 Hwf Hac E).
+  Qed.
+
+  Lemma id_conf_search_common_parent fuel (g : digraph A) n1 n2 R p :
+    wf g -> conf_search eqb (S fuel) g n1 n2 = Some R ->
+    arc g p n1 -> arc g p n2 -> p <> n1 -> p <> n2 -> In p R.
+  Proof.
+    intros Hwf H H1 H2 Hn1 Hn2. rewrite id_conf_search_S in H.
+    set (g' := del_arcs_from eqb g [n1; n2]) in *.
+    assert (Hwf' : wf g') by (apply id_del_wf; exact Hwf).
+    assert (Hnin : ~ In p [n1; n2]) by (intros [Heq|[Heq|[]]]; congruence).
+    apply (id_collect_in _ H). exists [p]. split; [|left; reflexivity].
+    apply in_map_iff. exists p. split.
+    - assert (E : memb eqb p (anc eqb g' n2) = true).
+      { apply id_memb_in, (Hanc _ _ Hwf'). apply id_path_arc. apply id_del_arc.
+        split; assumption. }
+      rewrite E. reflexivity.
+    - apply id_parents_in. apply id_del_arc. split; assumption.
+  Qed.
+
+  (** A common parent of [x] and [y] is always returned. *)
+  Theorem conf_common_parent_gen (g : digraph A) x y Z p :
+    wf g -> acyclic g -> confounders eqb g x y = Some Z ->
+    arc g p x -> arc g p y -> In p Z.
+  Proof.
+    intros Hwf Hac H Hx Hy. unfold confounders, conf_fuel in H.
+    rewrite Nat.add_1_r in H.
+    destruct (conf_search eqb (S (length (verts g))) g x y) as [c1|] eqn:E1; [|discriminate].
+    destruct (conf_search eqb (S (length (verts g))) g y x) as [c2|] eqn:E2; [|discriminate].
+    injection H as <-.
+    assert (Hpx : p <> x) by (intros ->; exact (Hac x (id_path_arc _ _ _ Hx))).
+    assert (Hpy : p <> y) by (intros ->; exact (Hac y (id_path_arc _ _ _ Hy))).
+    apply id_inter_in. split.
+    - exact (id_conf_search_common_parent _ Hwf E1 Hx Hy Hpx Hpy).
+    - exact (id_conf_search_common_parent _ Hwf E2 Hy Hx Hpy Hpx).
+  Qed.
+
 End IdentifyGen.
+
+(** * Checkers used by the concrete examples *)
+
+Section IdentifyCheckers.
+  Variable A : Type.
+  Variable eqb : A -> A -> bool.
+  Hypothesis eqb_spec : forall x y, reflect (x = y) (eqb x y).
+
+  Fixpoint id_nodupb (l : list A) : bool :=
+    match l with
+    | [] => true
+    | x :: l' => negb (memb eqb x l') && id_nodupb l'
+    end.
+
+  Definition id_wfb (g : digraph A) : bool :=
+    id_nodupb (verts g) &&
+    forallb (fun e => memb eqb (fst e) (verts g) && memb eqb (snd e) (verts g)) (arcs g).
+
+  Lemma id_nodupb_nodup l : id_nodupb l = true -> NoDup l.
+  Proof.
+    induction l as [|x l IH]; intros H; [constructor|].
+    simpl in H. apply andb_true_iff in H. destruct H as [Hx Hl].
+    constructor; [|apply IH; exact Hl].
+    apply negb_true_iff in Hx. apply (@id_memb_false A eqb eqb_spec x l). exact Hx.
+  Qed.
+
+  Lemma id_wfb_wf (g : digraph A) : id_wfb g = true -> wf g.
+  Proof.
+    unfold id_wfb. intros H. apply andb_true_iff in H. destruct H as [Hnd Harcs].
+    split; [apply id_nodupb_nodup; exact Hnd|].
+    intros a b Hab. rewrite forallb_forall in Harcs. specialize (Harcs (a, b) Hab).
+    simpl in Harcs. apply andb_true_iff in Harcs. destruct Harcs as [Ha Hb].
+    split; apply (@id_memb_in A eqb eqb_spec); assumption.
+  Qed.
+
+  (** A graph whose arcs all increase a rank is acyclic. *)
+  Lemma id_rank_acyclic (g : digraph A) (rank : A -> nat) :
+    forallb (fun e => Nat.ltb (rank (fst e)) (rank (snd e))) (arcs g) = true -> acyclic g.
+  Proof.
+    intros H. rewrite forallb_forall in H.
+    assert (Hp : forall x y, path g x y -> rank x < rank y).
+    { intros x y Hxy. unfold path in Hxy.
+      induction Hxy as [x y Harc|x y z _ IH1 _ IH2]; [|lia].
+      specialize (H (x, y) Harc). simpl in H. apply Nat.ltb_lt in H. exact H. }
+    intros v Hv. specialize (Hp v v Hv). lia.
+  Qed.
+End IdentifyCheckers.
+
+(** * The closed theorems: [desc_spec] / [anc_spec] of DigraphProofs.v discharge the section
+    hypotheses of [IdentifyGen]. *)
+From CG Require Import DigraphProofs.
+
+Section IdentifyClosed.
+  Variable A : Type.
+  Variable eqb : A -> A -> bool.
+  Hypothesis eqb_spec : forall x y, reflect (x = y) (eqb x y).
+
+  Let Hdesc := @desc_spec A eqb eqb_spec.
+  Let Hanc := @anc_spec A eqb eqb_spec.
+
+  (** 1. Fuel. *)
+  Theorem conf_search_fuel (g : digraph A) n1 n2 :
+    wf g -> acyclic g -> conf_search eqb (length (verts g) + 1) g n1 n2 <> None.
+  Proof. exact (@conf_search_fuel_gen A eqb eqb_spec g n1 n2). Qed.
+
+  Theorem conf_search_mono fuel fuel' (g : digraph A) n1 n2 R :
+    fuel <= fuel' -> conf_search eqb fuel g n1 n2 = Some R ->
+    conf_search eqb fuel' g n1 n2 = Some R.
+  Proof. exact (@conf_search_mono_gen A eqb fuel fuel' g n1 n2 R). Qed.
+
+  Theorem confounders_some (g : digraph A) x y :
+    wf g -> acyclic g -> exists Z, confounders eqb g x y = Some Z.
+  Proof. exact (@confounders_some_gen A eqb eqb_spec g x y). Qed.
+
+  Corollary conf_search_fuel_stable fuel (g : digraph A) n1 n2 :
+    wf g -> acyclic g -> length (verts g) + 1 <= fuel ->
+    conf_search eqb fuel g n1 n2 = conf_search eqb (length (verts g) + 1) g n1 n2.
+  Proof. exact (@conf_search_fuel_stable_gen A eqb eqb_spec fuel g n1 n2). Qed.
+
+  (** A common parent of [x] and [y] is always returned. *)
+  Theorem conf_common_parent (g : digraph A) x y Z p :
+    wf g -> acyclic g -> confounders eqb g x y = Some Z ->
+    arc g p x -> arc g p y -> In p Z.
+  Proof. exact (@conf_common_parent_gen A eqb eqb_spec Hanc g x y Z p). Qed.
+
+  (** 2. Every confounder returned is a strict common ancestor. *)
+  Theorem conf_common_ancestors (g : digraph A) x y Z :
+    wf g -> confounders eqb g x y = Some Z ->
+    forall z, In z Z -> path g z x /\ path g z y.
+  Proof. exact (@conf_common_ancestors_gen A eqb eqb_spec Hanc g x y Z). Qed.
+
+  (** 3. Symmetry (as sets). *)
+  Theorem conf_sym (g : digraph A) x y Z :
+    confounders eqb g x y = Some Z ->
+    exists Z', confounders eqb g y x = Some Z' /\ forall z, In z Z <-> In z Z'.
+  Proof. exact (@conf_sym_gen A eqb eqb_spec g x y Z). Qed.
+
+  (** 5. Instruments. *)
+  Theorem instruments_some (g : digraph A) s d :
+    wf g -> acyclic g -> exists I, instruments eqb g s d = Some I.
+  Proof. exact (@instruments_some_gen A eqb eqb_spec Hanc g s d). Qed.
+
+  Theorem inst_sub_anc (g : digraph A) s d I :
+    wf g -> instruments eqb g s d = Some I -> forall i, In i I -> path g i s.
+  Proof. exact (@inst_sub_anc_gen A eqb eqb_spec Hanc g s d I). Qed.
+
+  Theorem inst_empty_if_dest_anc (g : digraph A) s d :
+    wf g -> path g d s -> instruments eqb g s d = Some [].
+  Proof. exact (@inst_empty_if_dest_anc_gen A eqb eqb_spec Hanc g s d). Qed.
+
+  Theorem med_empty_if_dest_anc (g : digraph A) s d :
+    wf g -> path g d s -> mediators eqb g s d = Some [].
+  Proof. exact (@med_empty_if_dest_anc_gen A eqb eqb_spec Hanc g s d). Qed.
+
+  Theorem inst_spec (g : digraph A) s d I :
+    wf g -> ~ path g d s -> instruments eqb g s d = Some I ->
+    exists C, confounders eqb g s d = Some C /\
+      forall i, In i I <->
+        path g i s /\ ~ In i C /\
+        (forall z, In z C -> ~ path g z i /\ ~ path g i z) /\
+        (forall p, id_spath g d i p -> In s p) /\
+        confounders eqb g i d = Some [].
+  Proof. exact (@inst_spec_gen A eqb eqb_spec Hdesc Hanc g s d I). Qed.
+
+  (** 4. Mediators. *)
+  Theorem mediators_some (g : digraph A) s d :
+    wf g -> acyclic g -> In s (verts g) -> exists M, mediators eqb g s d = Some M.
+  Proof. exact (@mediators_some_gen A eqb eqb_spec g s d). Qed.
+
+  Theorem med_spec (g : digraph A) s d M :
+    wf g -> s <> d -> ~ path g d s -> mediators eqb g s d = Some M ->
+    exists C, confounders eqb g s d = Some C /\
+      forall m, In m M <->
+        (exists p, id_spath g d s p /\ 2 < length p) /\
+        (forall p, id_spath g d s p -> 2 < length p -> In m p /\ m <> s /\ m <> d) /\
+        (forall z, In z C -> ~ path (del_arcs_from eqb g [s]) z m).
+  Proof. exact (@med_spec_gen A eqb eqb_spec Hdesc Hanc g s d M). Qed.
+
+  Theorem med_empty_if_no_long_path (g : digraph A) s d M :
+    wf g -> s <> d -> mediators eqb g s d = Some M ->
+    (forall p, id_spath g d s p -> length p <= 2) -> M = [].
+  Proof. exact (@med_empty_if_no_long_path_gen A eqb eqb_spec Hdesc Hanc g s d M). Qed.
+
+  Theorem med_between (g : digraph A) s d M :
+    wf g -> s <> d -> mediators eqb g s d = Some M ->
+    forall m, In m M -> path g s m /\ path g m d.
+  Proof. exact (@med_between_gen A eqb eqb_spec Hdesc Hanc g s d M). Qed.
+End IdentifyClosed.
+
+(** * Concrete examples over [nat] vertices (non-vacuity, and pins to the observed Python
+    behaviour: every value below was obtained from the real library) *)
+
+Definition id_mk (n : nat) (ar : list (nat * nat)) : digraph nat :=
+  {| verts := seq 0 n; arcs := ar |}.
+
+Local Ltac id_wf_acyclic rank :=
+  split; [apply (@id_wfb_wf nat Nat.eqb Nat.eqb_spec); vm_compute; reflexivity
+         |apply (@id_rank_acyclic nat _ rank); vm_compute; reflexivity].
+
+(** Docstring of [identify_confounders]: z=0, u=1, x=2, y=3. *)
+Definition ex_conf : digraph nat := id_mk 4 [(0, 1); (1, 2); (1, 3); (2, 3)].
+Example ex_conf_ok : wf ex_conf /\ acyclic ex_conf.
+Proof. id_wf_acyclic (fun n : nat => n). Qed.
+Example ex_conf_run : confounders Nat.eqb ex_conf 2 3 = Some [1].
+Proof. vm_compute. reflexivity. Qed.
+Example ex_conf_run_rev : confounders Nat.eqb ex_conf 3 2 = Some [1].
+Proof. vm_compute. reflexivity. Qed.
+Example ex_conf_fuel : conf_search Nat.eqb (length (verts ex_conf) + 1) ex_conf 2 3 = Some [1].
+Proof. vm_compute. reflexivity. Qed.
+(** Fuel exhaustion is visible: too little fuel gives [None], never a normal looking value. *)
+Example ex_conf_fuel_short : conf_search Nat.eqb 1 (id_mk 3 [(0, 1); (1, 2)]) 2 0 = None.
+Proof. vm_compute. reflexivity. Qed.
+Example ex_conf_common : path ex_conf 1 2 /\ path ex_conf 1 3.
+Proof.
+  apply (@conf_common_ancestors nat Nat.eqb Nat.eqb_spec ex_conf 2 3 [1]
+           (proj1 ex_conf_ok) ex_conf_run 1). left; reflexivity.
+Qed.
+
+(** Docstring of [identify_instruments]: z=0, u=1, x=2, y=3. *)
+Definition ex_inst : digraph nat := id_mk 4 [(0, 2); (1, 2); (1, 3); (2, 3)].
+Example ex_inst_ok : wf ex_inst /\ acyclic ex_inst.
+Proof. id_wf_acyclic (fun n : nat => n). Qed.
+Example ex_inst_run : instruments Nat.eqb ex_inst 2 3 = Some [0].
+Proof. vm_compute. reflexivity. Qed.
+(** The hypotheses of [inst_spec] hold here: y is not an ancestor of x. *)
+Example ex_inst_hyp : ~ path ex_inst 3 2.
+Proof.
+  intros Hp.
+  apply (@anc_spec nat Nat.eqb Nat.eqb_spec ex_inst 2 3 (proj1 ex_inst_ok)) in Hp.
+  vm_compute in Hp. intuition discriminate.
+Qed.
+(** The destination is an ancestor of the source: empty. *)
+Example ex_inst_run_rev : instruments Nat.eqb ex_inst 3 2 = Some [].
+Proof. vm_compute. reflexivity. Qed.
+Example ex_inst_rev_hyp : path ex_inst 2 3.
+Proof. apply t_step. unfold arc. simpl. tauto. Qed.
+(** z -> x, z -> y, x -> y: z reaches y avoiding x, so it is rejected. *)
+Example ex_inst_rejected : instruments Nat.eqb (id_mk 3 [(0, 1); (0, 2); (1, 2)]) 1 2 = Some [].
+Proof. vm_compute. reflexivity. Qed.
+
+(** Docstring of [identify_mediators]: x=0, m=1, y=2, u=3. *)
+Definition ex_med : digraph nat := id_mk 4 [(0, 1); (1, 2); (3, 0); (3, 2); (0, 2)].
+Example ex_med_ok : wf ex_med /\ acyclic ex_med.
+Proof. id_wf_acyclic (fun n : nat => match n with 3 => 0 | _ => S n end). Qed.
+Example ex_med_run : mediators Nat.eqb ex_med 0 2 = Some [1].
+Proof. vm_compute. reflexivity. Qed.
+Example ex_med_run_rev : mediators Nat.eqb ex_med 2 0 = Some [].
+Proof. vm_compute. reflexivity. Qed.
+Example ex_med_hyp : 0 <> 2 /\ ~ path ex_med 2 0.
+Proof.
+  split; [discriminate|]. intros Hp.
+  apply (@anc_spec nat Nat.eqb Nat.eqb_spec ex_med 0 2 (proj1 ex_med_ok)) in Hp.
+  vm_compute in Hp. intuition discriminate.
+Qed.
+Example ex_med_paths :
+  id_all_paths Nat.eqb ex_med 0 2 = Some [[0; 1; 2]; [0; 2]].
+Proof. vm_compute. reflexivity. Qed.
+(** Two disjoint long paths (diamond): no node lies on every causal path. *)
+Example ex_med_diamond : mediators Nat.eqb (id_mk 4 [(0, 1); (1, 3); (0, 2); (2, 3)]) 0 3 = Some [].
+Proof. vm_compute. reflexivity. Qed.
+(** Only the direct edge: no causal path with more than two nodes. *)
+Example ex_med_direct : mediators Nat.eqb (id_mk 2 [(0, 1)]) 0 1 = Some [].
+Proof. vm_compute. reflexivity. Qed.
+(** u -> x, u -> m, x -> m, m -> y, u -> y (x=0, m=1, y=2, u=3): m is a descendant of the
+    confounder u in the graph without the out-edges of x, so it is rejected. *)
+Example ex_med_conf_rejected :
+  let g := id_mk 4 [(3, 0); (3, 1); (0, 1); (1, 2); (3, 2)] in
+  confounders Nat.eqb g 0 2 = Some [3] /\ mediators Nat.eqb g 0 2 = Some [].
+Proof. vm_compute. split; reflexivity. Qed.
+
+(** * 6. The confounder set is NOT a sufficient adjustment set in general: the witness.
+    a=0, b=1, c=2, d=3, e=4 with a->d a->e b->c b->e e->c e->d and (x, y) = (c, d): the code
+    returns {e}; conditioning on the collider e opens c <- b -> e <- a -> d.  (The d-separation
+    half of the refutation is proved where the d-separation model lives.) *)
+Definition conf_witness_graph : digraph nat :=
+  id_mk 5 [(0, 3); (0, 4); (1, 2); (1, 4); (4, 2); (4, 3)].
+Example conf_witness_ok : wf conf_witness_graph /\ acyclic conf_witness_graph.
+Proof.
+  id_wf_acyclic (fun n : nat => match n with 0 => 0 | 1 => 0 | 4 => 1 | _ => 2 end).
+Qed.
+Example conf_witness : confounders Nat.eqb conf_witness_graph 2 3 = Some [4].
+Proof. vm_compute. reflexivity. Qed.
+Example conf_witness_rev : confounders Nat.eqb conf_witness_graph 3 2 = Some [4].
+Proof. vm_compute. reflexivity. Qed.
+(** Neither a nor b (the two other common ancestors of c and d) is returned. *)
+Example conf_witness_common :
+  path conf_witness_graph 0 2 /\ path conf_witness_graph 0 3 /\
+  path conf_witness_graph 1 2 /\ path conf_witness_graph 1 3.
+Proof.
+  assert (Hwf : wf conf_witness_graph) by exact (proj1 conf_witness_ok).
+  assert (H : forall a b, In a (anc Nat.eqb conf_witness_graph b) ->
+                          path conf_witness_graph a b).
+  { intros a b.
+    exact (proj1 (@anc_spec nat Nat.eqb Nat.eqb_spec conf_witness_graph b a Hwf)). }
+  split; [|split; [|split]]; apply H; vm_compute; auto 10.
+Qed.
